@@ -52,6 +52,9 @@ ALGOS = [None, 'CbO', 'Lindig']
 # relation caches of the lattice empty, to be filled lazily by the queries that follow.
 BUILDS = [None, 'CbO', 'Lindig', 'Sofia', 'list']
 WARM_QUERIES = ['parents', 'children', 'descendants', 'ancestors', 'leq']
+# 'readd' = remove(c) then add(c, fill_up_cache=False): resets the four relation caches but keeps the
+# comparison cache; the concept moves to the end of the list (top and bottom cannot be removed: skipped)
+WARM_QUERIES_LAT = WARM_QUERIES + ['readd']
 KINDS = ['trans', 'primes', 'latT', 'compl', 'relabel', 'mono']
 
 # names that a double complement restores (none starts with 'not not ')
@@ -89,7 +92,36 @@ def _try(fn):
         return ['err', classify_exception(e), str(e)[:120]]
 
 
-def _lat_d(L):
+def _order(L):
+    n = len(L)
+    leq = [[L.leq_elements(i, j) for j in range(n)] for i in range(n)]
+    cle = [[L[i] <= L[j] for j in range(n)] for i in range(n)]
+    for m in (leq, cle):
+        for row in m:
+            for v in row:
+                if not isinstance(canon(v), bool):
+                    raise TypeError('order answer is not a bool: %r' % (v,))
+    return ([[j for j in range(n) if leq[i][j]] for i in range(n)],
+            [[j for j in range(n) if cle[i][j]] for i in range(n)])
+
+
+def _warm(L, case, allow_readd=True):
+    n = len(L)
+    for q, a, b in case.get('warm') or []:
+        i, j = a % n, b % n
+        if q == 'leq':
+            L.leq_elements(i, j)
+        elif q == 'readd':
+            if allow_readd and i not in (L.top, L.bottom):
+                c = L[i]
+                L.remove(c)
+                L.add(c, fill_up_cache=False)
+        else:
+            getattr(L, q)(i)
+
+
+def _lat_d(L, leq_first=False):
+    order = _order(L) if leq_first else None
     cs = []
     for c in L:
         cs.append([canon(list(c.extent_i)), list(c.extent), canon(list(c.intent_i)), list(c.intent),
@@ -99,7 +131,9 @@ def _lat_d(L):
     chd = L.children_dict
     ch = [sorted(canon(chd[i])) for i in range(n)]
     pad, ded, and_ = L.parents_dict, L.descendants_dict, L.ancestors_dict
-    return {'concepts': cs, 'children': ch, 'mono': bool(L.is_monotone),
+    if order is None:
+        order = _order(L)
+    return {'concepts': cs, 'children': ch, 'mono': bool(L.is_monotone), 'leq': order[0], 'cle': order[1],
             'parents': [sorted(canon(pad[i])) for i in range(n)],
             'desc': [sorted(canon(ded[i])) for i in range(n)],
             'anc': [sorted(canon(and_[i])) for i in range(n)]}
@@ -126,13 +160,7 @@ def _build(K, case):
         L = ConceptLattice(cs)
     else:
         L = _lattice(K, algo)
-    n = len(L)
-    for q, a, b in case.get('warm') or []:
-        i, j = a % n, b % n
-        if q == 'leq':
-            L.leq_elements(i, j)
-        else:
-            getattr(L, q)(i)
+    _warm(L, case)
     return L
 
 
@@ -155,11 +183,12 @@ def run_impl(case):
                     'iK': [canon(K.intention_i(list(x))) for x in xs],
                     'eK': [canon(K.extension_i(list(y))) for y in ys]}
         if kind == 'latT':
+            lf = bool(case.get('leq_first'))
             L = _build(K, case)
             LT = L.T                       # observed before anything else is asked of L
-            dLT = _lat_d(LT)
+            dLT = _lat_d(LT, lf)
             L2 = _build(K.T, case)
-            return {'L': _lat_d(L), 'LT': dLT, 'L2': _lat_d(L2)}
+            return {'L': _lat_d(L, lf), 'LT': dLT, 'L2': _lat_d(L2, lf)}
         if kind == 'compl':
             K1 = ~K
             K2 = ~K1
@@ -168,19 +197,22 @@ def run_impl(case):
             ps, pc = case['ps'], case['pc']
             t2 = [[t[i][j] for j in pc] for i in ps]
             K2 = _ctx(t2, case['onames2'], case['anames2'], be)
-            return {'L1': _lat_d(_build(K, case)), 'L2': _lat_d(_build(K2, case))}
+            lf = bool(case.get('leq_first'))
+            # the library's own route: K[rows, cols]
+            K3 = K[list(ps), list(pc)]
+            ys, xs = sublists(list(range(len(pc)))), sublists(list(range(len(ps))))
+            e3 = [canon(K3.extension_i(list(y))) for y in ys]
+            i3 = [canon(K3.intention_i(list(x))) for x in xs]
+            return {'L1': _lat_d(_build(K, case), lf), 'L2': _lat_d(_build(K2, case), lf),
+                    'K3': _ctx_d(K3), 'L3': _lat_d(_build(K3, case), lf), 'e3': e3, 'i3': i3}
         if kind == 'mono':
             malgo = 'CbO' if algo == 'list' else algo
             Lc = _lattice(~K, malgo)
             M = _lattice(K, malgo, is_monotone=True)
-            n = len(M)
-            for q, a, b in case.get('warm') or []:
-                if q == 'leq':
-                    M.leq_elements(a % n, b % n)
-                else:
-                    getattr(M, q)(a % n)
+            _warm(M, case, allow_readd=False)   # the model compares M position by position
             le = [[_try(lambda a=a, b=b: bool(a <= b))[:2] for b in M] for a in M]
-            return {'Lc': _lat_d(Lc), 'M': _lat_d(M), 'le': le, 'hash': int(K.hash_fixed())}
+            lf = bool(case.get('leq_first'))
+            return {'Lc': _lat_d(Lc, lf), 'M': _lat_d(M, lf), 'le': le, 'hash': int(K.hash_fixed())}
         raise ValueError('unknown kind ' + kind)
     r = guarded(go, timeout_s=20)
     return list(r)
@@ -239,7 +271,7 @@ def _lat_term(d, ld):
         cs.append('mkcon %s %s %s %s %s %s' % (coq(ei), coq(d.many(e)), coq(ii), coq(d.many(i)), _opt_z(h), coq(bool(m))))
     n = len(cs)
     masks = []
-    for f in ('children', 'parents', 'desc', 'anc'):
+    for f in ('children', 'parents', 'desc', 'anc', 'leq', 'cle'):
         # sets of concept indexes, one bit mask per key; an entry for every concept, nothing out of range
         if len(ld[f]) != n or not all(_idx_ok(c) and all(x < n for x in c) and len(set(c)) == len(c) for c in ld[f]):
             raise _Bad()
@@ -276,7 +308,11 @@ def to_coq(case, out):
             elif kind == 'latT':
                 o = '(IOk (%s, %s, %s))' % (_lat_term(d, v['L']), _lat_term(d, v['LT']), _lat_term(d, v['L2']))
             elif kind == 'relabel':
-                o = '(IOk (%s, %s))' % (_lat_term(d, v['L1']), _lat_term(d, v['L2']))
+                if not all(all(_idx_ok(x) for x in v[f]) for f in ('e3', 'i3')):
+                    raise _Bad()
+                o = '(IOk (%s, %s, (%s, %s, %s, %s)))' % (_lat_term(d, v['L1']), _lat_term(d, v['L2']),
+                                                          _ctx_term(d, v['K3']), _lat_term(d, v['L3']),
+                                                          coq(v['e3']), coq(v['i3']))
             elif kind == 'mono':
                 le = '[' + '; '.join('[' + '; '.join(_ires_bool(x) for x in row) + ']' for row in v['le']) + ']'
                 o = '(IOk (%s, %s, %s))' % (_lat_term(d, v['Lc']), _lat_term(d, v['M']), le)
@@ -373,9 +409,9 @@ def random_case(rng, kind, max_dim, broken=False):
     if kind in ('latT', 'relabel', 'mono'):
         algo = rng.choice(BUILDS)
         nq = rng.choice([0, 1, 1, 2, 2, 3])
-        warm_extra = {'warm': [[rng.choice(WARM_QUERIES), rng.randrange(1000), rng.randrange(1000)]
-                               for _ in range(nq)],
-                      'shuffle': rng.randrange(1000)}
+        qs = WARM_QUERIES if kind == 'mono' else WARM_QUERIES_LAT
+        warm_extra = {'warm': [[rng.choice(qs), rng.randrange(1000), rng.randrange(1000)] for _ in range(nq)],
+                      'shuffle': rng.randrange(1000), 'leq_first': rng.random() < 0.5}
     on = random_names(rng, h)
     if broken:
         an = random_names(rng, w, BROKEN, 0.5)
@@ -421,7 +457,7 @@ def exhaustive_cases():
             for algo in ('CbO', 'Lindig'):      # algo=None is Lindig for a FormalContext
                 # one parents query on a position that varies with the table, before L.T
                 warm = [['parents', sum(map(sum, t)) + h, 0]] if algo == 'CbO' else []
-                yield _mk('latT', be, t, on, an, algo, tkind='exhaustive', warm=warm)
+                yield _mk('latT', be, t, on, an, algo, tkind='exhaustive', warm=warm, leq_first=(algo == 'Lindig'))
                 yield _mk('mono', be, t, on, an_not, algo, tkind='exhaustive')
 
 
@@ -444,7 +480,8 @@ def edge_cases():
             on, an = default_names(n, n)
             for algo in BUILDS:
                 out.append(_mk('latT', be, contra, on, an, algo, tkind='contranominal',
-                               warm=[['parents', n, 0], ['children', 1, 0]], shuffle=n))
+                               warm=[['parents', n, 0], ['readd', 1, 0], ['children', 1, 0]], shuffle=n,
+                               leq_first=(algo in (None, 'Lindig'))))
                 out.append(_mk('mono', be, contra, on, ['not ' + m for m in an], algo, tkind='contranominal'))
             out.append(_mk('relabel', be, contra, on, an, 'CbO', tkind='contranominal',
                            ps=list(reversed(range(n))), pc=[(j + 1) % n for j in range(n)],
